@@ -54,6 +54,18 @@ CHECKS = {
          'Crash points are enumerated from a complete run of the current tree (12 audit steps + 33 line steps per stored module today; 3 templates incl. a 700 kB module; plus every write/rename/close/openat syscall on the temporary file and the entry): after each crash a fresh process on the same directory must render the reference and every *.py entry must equal the complete module. 18 one-option pairs x 2 orders x same/two processes compared against no-cache renders. 24 two-writer schedules (A parked at each step while B stores the same entry).',
          'Trusted: POSIX rename atomicity and program-order application of file-system operations (crash model = process death, not power loss); strace injection on syscall entry; id()-derived numbers in generated identifiers are normalised before comparing module sources.',
          'DESIGN.md §3 C15'),
+ 'C16': ('history-model',
+         'runtime history checking: random file/loader operation histories executed on the real PageTemplateFile / PageTemplateLoader and compared step by step with a small executable model; M-cook (wrapper on the real BaseTemplate.cook) counts compilations',
+         'exploration',
+         '1 280 (quick) / 24 000 (thorough) histories of write / touch / render / macro listing / macro lookup / content_type / including render over main.pt and lib.pt in 1..3 search directories (auto_reload on/off, direct or through a loader), each step compared with the model, compilation counts per file compared with the model; 3 600 / 72 000 loader resolutions over random directory layouts (default extension, dotted and dot-less names, sub-directories, absolute paths, padded names, missing files, instance identity, load: next to the including file).',
+         'Trusted: the 40-line file/loader model; mtimes set explicitly (no clock dependence); rewriting a file without changing its mtime is not generated (undetectable by design).',
+         'DESIGN.md §3 C16'),
+ 'C14': ('schedule-explorer+stress+differential',
+         'controlled line-level scheduler on sys.monitoring LINE events (two threads stepped through cook/_cook/cook_check/read/TemplateLoader.load/registry wrapper/MemoryLoader.build under explicit schedules), yield-injection stress with 8 threads, render-history and cross-process differential, M-args snapshot monitor',
+         'exploration',
+         'Per quick run ~750 executed schedules (every "A runs k line-steps, B to completion" for both roles and all k until the first thread finishes, sampled two-preemption and random schedules) over 4 scenarios (racing first render of a lazy file template, auto-reload after a file change, shared loader, load: chain), each result compared with the same call run alone; distinct interleaving signatures and context switches inside monitored code are counted; 7 680 stress renders under a 1 microsecond switch interval with yield injection; 4 384 history renders with argument snapshots; 6 templates x 6 bindings re-rendered in fresh interpreters under 4 hash seeds.',
+         'Trusted: line granularity of the scheduler (switches inside one line or inside generated render code are reached only by the stress layer); a thread that does not reach its next event within 0.25 s is treated as blocked on one of the program\'s own locks.',
+         'DESIGN.md §3 C14'),
 }
 NOT_YET = {}
 
